@@ -991,7 +991,7 @@ func Spec() *mon.Spec {
 		ID:            "C06",
 		SpinViolation: true, Level: "exploration",
 		Rule: "Oracle: every vector version is paired with a plain []any copy; after every operation the result AND the receiver are compared completely (Len, Index of every position, rejected Index at -1/len/len+1/extremes, full iteration), out-of-range Assoc/Pop/SubVector must return nil, and all live versions are re-read after every step of a history. " +
-			"Phases: sweep = case i covers lengths 10i..10i+9 (quick 0..1109, thorough 0..33899) built by Conj; at each length Assoc at {0,n/2,n-1,n,-1,n+1, tree/tail border, 31,32,1023,1024, MaxInt, MinInt}, Pop, SubVector over pairs from the boundary set {-1,0,1,31,32,33,63,64,65,1023..1025,1055..1057,32767..32769,32799..32801,n/2,n-1,n,n+1} (all pairs at lengths near 0/32/64/1024/1056/32768/32800 and multiples of 16, sampled otherwise), on each slice Assoc/Conj/Pop and slices of the slice chosen from its own boundaries and from the numbers that would be valid for the vector underneath, one more level below that; Pop chains down to 0 with Conj back up at the shape-changing lengths. " +
+			"Phases: sweep = case i covers lengths 10i..10i+9 (quick 0..1109, thorough 0..10999) built by Conj; at each length Assoc at {0,n/2,n-1,n,-1,n+1, tree/tail border, 31,32,1023,1024, MaxInt, MinInt}, Pop, SubVector over pairs from the boundary set {-1,0,1,31,32,33,63,64,65,1023..1025,1055..1057,32767..32769,32799..32801,n/2,n-1,n,n+1} (all pairs at lengths near 0/32/64/1024/1056/32768/32800 and multiples of 16, sampled otherwise), on each slice Assoc/Conj/Pop and slices of the slice chosen from its own boundaries and from the numbers that would be valid for the vector underneath, one more level below that; Pop chains down to 0 with Conj back up at the shape-changing lengths. " +
 			"history = 400 random operations over a pool of <=40 live versions (start lengths around 0/32/64/96/1024/1056/1088, grow/shrink/slice/branch segments, sibling Conj from one receiver), every live version re-read after every step. tall = lengths around 32800/32801 (third tree level). elvish = 120 operations through a real interpreter ($x[i], $x[a..b], $x[a..=b], negative indices, conj, assoc, set x[i]=, count, all/each/for/explode, take, drop, list literal) and vals.Index/Assoc/Len/Collect, results fed back as receivers. extreme = one request with MaxInt/MinInt per case. " +
 			"Non-trivial = sweep case (always contains slices of slices), history touching >=2 tree heights or >=1 slice of a slice, tall/elvish/extreme case; distinct by lengths/trace.",
 		Assumptions: []string{
